@@ -55,7 +55,7 @@ impl PathBuf {
     #[verifier::external_body]
     pub fn dir(&self) -> (r: RvResult<PathBuf>)
         ensures self.abs_clean() && self@.len() == 0 ==> r is Err && r->Err_0.kind == ErrKind::ParentNotFound,
-                self.abs_clean() && self@.len() > 0 ==> r is Ok && r->Ok_0@ == self@.drop_last() && r->Ok_0.abs_clean(),
+                self.abs_clean() && self@.len() > 0 ==> r is Ok && r->Ok_0@ == self@.drop_last() && r->Ok_0.abs_clean() && r->Ok_0.comps() == abs_comps(self@.drop_last()),
     { unimplemented!() }
     #[verifier::external_body]
     pub fn base(&self) -> (r: RvResult<NameStr>)
@@ -66,4 +66,32 @@ impl PathBuf {
     pub fn mash_name(&self, n: &NameStr) -> (r: PathBuf)
         ensures self.abs_clean() ==> r.abs_clean() && r@ == self@.push(n@)
     { unimplemented!() }
+}
+
+// R1: the generic path parameters `T: AsRef<Path>` / `T: Into<PathBuf>` are instantiated by PathBuf and &PathBuf;
+// as_ref()/into() are representation preserving (std: AsRef<Path> for PathBuf/&Path, From<&Path> for PathBuf)
+pub trait PathArg: Sized {
+    spec fn pc(&self) -> Comps;
+    spec fn pv(&self) -> PathV;
+    spec fn pok(&self) -> bool;
+    fn into(self) -> (r: PathBuf) ensures r.comps() == self.pc(), r@ == self.pv(), r.abs_clean() == self.pok();
+    fn as_ref(&self) -> (r: &PathBuf) ensures r.comps() == self.pc(), r@ == self.pv(), r.abs_clean() == self.pok();
+}
+impl PathArg for PathBuf {
+    open spec fn pc(&self) -> Comps { self.comps() }
+    open spec fn pv(&self) -> PathV { self@ }
+    open spec fn pok(&self) -> bool { self.abs_clean() }
+    #[verifier::external_body]
+    fn into(self) -> (r: PathBuf) { unimplemented!() }
+    #[verifier::external_body]
+    fn as_ref(&self) -> (r: &PathBuf) { unimplemented!() }
+}
+impl<'a> PathArg for &'a PathBuf {
+    open spec fn pc(&self) -> Comps { (**self).comps() }
+    open spec fn pv(&self) -> PathV { (**self)@ }
+    open spec fn pok(&self) -> bool { (**self).abs_clean() }
+    #[verifier::external_body]
+    fn into(self) -> (r: PathBuf) { unimplemented!() }
+    #[verifier::external_body]
+    fn as_ref(&self) -> (r: &PathBuf) { unimplemented!() }
 }
